@@ -17,6 +17,7 @@ public:
     using StrPrinter::apply;
     using StrPrinter::bvisit;
     using StrPrinter::str_;
+    PrecedenceEnum get_precedence(const RCP<const Basic> &x) override;
     void bvisit(const Basic &x);
     void bvisit(const Complex &x);
     void bvisit(const Dummy &x);
